@@ -49,6 +49,7 @@ class StubInfo:
         self.other_classes: List[Tuple[str, ...]] = []
         self.errors: List[str] = []
         self.td_field_errors: List[str] = []
+        self.duplicate_classes: List[str] = []
 
 
 def mk_atd(req: Dict[str, Any], opt: Dict[str, Any]) -> Any:
@@ -105,6 +106,10 @@ def parse(text: str, own_names: Optional[Dict[str, Any]] = None, lenient_modules
 
     changed = True
     classdefs = [n for n in tree.body if isinstance(n, ast.ClassDef)]
+    _seen_names: Dict[str, int] = {}
+    for c in classdefs:
+        _seen_names[c.name] = _seen_names.get(c.name, 0) + 1
+    info.duplicate_classes = sorted(n for n, k in _seen_names.items() if k > 1)
     while changed:
         changed = False
         for c in classdefs:
